@@ -20,16 +20,9 @@ Theorem C02_cfg_ok_def : forall cfg, cfg_ok cfg <->
 Proof. intros; reflexivity. Qed.
 Print Assumptions C02_cfg_ok_def.
 
-(* inside the calls - in every reachable state in which the pool context is not yet being left - some thread or process
-   can move: the consumer is never left blocked on a result that will not come, a paused feeder is always resumed, a
-   full queue is always drained, retired workers are always replaced.  Holds for every configuration of the property. *)
-Theorem C02_no_deadlock_in_calls : forall cfg hist sched, cfg_ok cfg -> Forall action_ok hist -> fault_free_sched sched ->
-  let s := run cfg (init cfg hist) sched in
-  exit_class (s_main s) = false -> exists e, fault_free e /\ step cfg s e <> None.
-Proof.
-  intros cfg hist sched Ok Hh Hs s Hx. apply (deadlock_free_calls cfg hist s Ok); auto. apply live_run; auto.
-Qed.
-Print Assumptions C02_no_deadlock_in_calls.
+(* in every reachable state in which the run is not over some thread or process can move: the consumer is never left
+   blocked on a result that will not come, a paused feeder is always resumed, a full queue is always drained, retired
+   workers are always replaced, every stop order is taken (C02_no_deadlock below) *)
 
 (* every step of every thread decreases the measure mu: there is no infinite run *)
 Theorem C02_measure : forall cfg hist sched e s', cfg_ok cfg -> Forall action_ok hist -> fault_free_sched sched ->
@@ -55,21 +48,27 @@ Theorem C02_calls_terminate : forall cfg hist pick, cfg_ok cfg -> Forall action_
 Proof. exact calls_terminate. Qed.
 Print Assumptions C02_calls_terminate.
 
-(* ... and the pool context can be left, provided the work queue can hold the stop orders that nobody will take *)
-Theorem C02_exit_cap_ok_def : forall cfg, exit_cap_ok cfg <->
-  forall c, c_wq_cap cfg = Some c -> c_workers cfg <= c \/ c_quota cfg = None.
-Proof. intros; reflexivity. Qed.
-Print Assumptions C02_exit_cap_ok_def.
+(* ... and the pool context can be left.  No condition on the capacity of the work queue: a worker that reaches its quota
+   announces its retirement before it delivers its last result, so the notice is in the replace queue in front of the
+   stop token that the consumer puts after that result; in every reachable state nothing follows the stop token, and
+   once the replace thread has taken it no notice is left - every slot holds a worker that takes its stop order. *)
+Theorem C02_notices_before_token : forall cfg hist sched, cfg_ok cfg -> Forall action_ok hist -> fault_free_sched sched ->
+  let s := run cfg (init cfg hist) sched in
+  after_none (s_replq s) = [] /\ (rep_live (s_rep s) = false -> somes (s_replq s) = []).
+Proof.
+  intros cfg hist sched Ok Hh Hs s. destruct (lv_x cfg hist s (live_run cfg hist sched Ok Hh Hs)) as [Xa Xq]. split; assumption.
+Qed.
+Print Assumptions C02_notices_before_token.
 
-Theorem C02_no_deadlock : forall cfg hist sched, cfg_ok cfg -> exit_cap_ok cfg -> Forall action_ok hist -> fault_free_sched sched ->
+Theorem C02_no_deadlock : forall cfg hist sched, cfg_ok cfg -> Forall action_ok hist -> fault_free_sched sched ->
   let s := run cfg (init cfg hist) sched in
   s_main s <> MDone -> exists e, fault_free e /\ step cfg s e <> None.
 Proof.
-  intros cfg hist sched Ok Xc Hh Hs s Hx. apply (deadlock_free cfg hist s Ok Xc); auto. apply live_run; auto.
+  intros cfg hist sched Ok Hh Hs s Hx. apply (deadlock_free cfg hist s Ok); auto. apply live_run; auto.
 Qed.
 Print Assumptions C02_no_deadlock.
 
-Theorem C02_pool_terminates : forall cfg hist pick, cfg_ok cfg -> exit_cap_ok cfg -> Forall action_ok hist ->
+Theorem C02_pool_terminates : forall cfg hist pick, cfg_ok cfg -> Forall action_ok hist ->
   (forall s, fault_free (pick s)) ->
   (forall s, (exists e, enabled cfg s e) -> step cfg s (pick s) <> None) ->
   s_main (drive cfg pick (mu (init cfg hist)) (init cfg hist)) = MDone.
@@ -82,32 +81,23 @@ Theorem C02_scheduler_exists : forall cfg,
 Proof. intros cfg. split; [apply pick_first_fault_free | apply pick_first_enabled]. Qed.
 Print Assumptions C02_scheduler_exists.
 
-(* outside exit_cap_ok the full statement is false of the model - and of the implementation (known finding, replayed by
-   the harness): int work_queue_maxsize 1, two factory workers with quota 1 that retire after the stop token of the
-   replace thread; leaving the pool blocks on the second stop order.  All calls have completed with their results. *)
-Theorem C02_exit_hang_refuted :
-  cfg_ok hang_cfg /\ ~ exit_cap_ok hang_cfg /\ Forall action_ok hang_hist /\ fault_free_sched hang_sched
-  /\ let s := run hang_cfg (init hang_cfg hang_hist) hang_sched in
-     s_main s = MExitPut 1 /\ s_done_calls s = [[1; 2]%Z] /\ forall e, step hang_cfg s e = None.
-Proof. exact exit_hang_refuted. Qed.
-Print Assumptions C02_exit_hang_refuted.
-
-(* non-vacuity: a configuration with every bound at its minimum and flow control, driven by the scheduler above *)
+(* non-vacuity: configurations with every bound at its minimum, flow control and retiring workers, driven by the scheduler
+   above; the second one is the configuration and history on which leaving the pool used to block (fixed finding) *)
 Example C02_concrete :
   let cfg := mkCfg 2 (Some 1) (Some 1) true (Some 1) in
   let hist := [ACall true [1; 2; 3]%Z 1; ACall false [4; 5]%Z 2] in
-  cfg_ok cfg /\ ~ exit_cap_ok cfg /\ Forall action_ok hist
-  /\ exit_class (s_main (drive cfg (pick_first cfg) (mu (init cfg hist)) (init cfg hist))) = true.
+  cfg_ok cfg /\ Forall action_ok hist
+  /\ s_main (drive cfg (pick_first cfg) (mu (init cfg hist)) (init cfg hist)) = MDone.
 Proof.
-  split; [|split; [|split]].
+  split; [|split].
   - unfold cfg_ok; simpl. split; [auto|]. split; [intros c H; injection H as <-; auto|]. split; [intros c H; injection H as <-; auto|].
     intros k H; injection H as <-; auto.
-  - intros H. destruct (H 1 eq_refl) as [H1|H1]; simpl in H1; [inversion H1 as [|? H2]; inversion H2 | discriminate].
   - repeat constructor.
   - vm_compute. reflexivity.
 Qed.
-Example C02_concrete_done :
-  let cfg := mkCfg 2 (Some 2) (Some 1) true (Some 1) in
-  let hist := [ACall true [1; 2; 3]%Z 1; ACall false [4; 5]%Z 2] in
-  s_main (drive cfg (pick_first cfg) (mu (init cfg hist)) (init cfg hist)) = MDone.
-Proof. vm_compute. reflexivity. Qed.
+Example C02_concrete_former_hang :
+  let cfg := mkCfg 2 (Some 1) None true (Some 1) in
+  let hist := [ACall true [1; 2]%Z 1] in
+  let s := drive cfg (pick_first cfg) (mu (init cfg hist)) (init cfg hist) in
+  s_main s = MDone /\ s_done_calls s = [[1; 2]%Z].
+Proof. vm_compute. split; reflexivity. Qed.
